@@ -86,6 +86,7 @@ pub struct Cpu {
     pub tr: u16,
     pub ldtr: u16,
     pub port_in: u32, // value the device supplies on the next IN (truncated to the access width)
+    pub port_in_step: u32, // added to port_in after every IN (a device whose register changes between reads)
     pub cpuid: [(u32, [u32; 4]); 4],
     pub ncpuid: usize,
     pub events: [Event; MAX_EV],
@@ -97,6 +98,8 @@ pub struct Cpu {
     pub iret_cont: u64, // continuation RIP after an emulated iretq (0 = execute iretq natively)
     pub iret_rsp: u64,
     pub unknown_fault: u64,
+    /// set once by init(): from then on every privileged instruction that faults is emulated and logged, whatever the mode
+    pub armed: bool,
 }
 
 const ARITH: u64 = 0x8d5 | 0x400; // CF PF AF ZF SF OF + DF live in the real RFLAGS
@@ -116,6 +119,7 @@ pub static mut CPU: Cpu = Cpu {
     tr: 0,
     ldtr: 0,
     port_in: 0,
+    port_in_step: 0,
     cpuid: [(0, [0; 4]); 4],
     ncpuid: 0,
     events: [Event { ev: Ev::Cli, rip: 0, len: 0 }; MAX_EV],
@@ -127,6 +131,7 @@ pub static mut CPU: Cpu = Cpu {
     iret_cont: 0,
     iret_rsp: 0,
     unknown_fault: 0,
+    armed: false,
 };
 
 pub fn cpu() -> &'static mut Cpu {
@@ -147,6 +152,7 @@ impl Cpu {
         self.tr = 0;
         self.ldtr = 0;
         self.port_in = 0;
+        self.port_in_step = 0;
         self.ncpuid = 0;
         self.nev = 0;
         self.overflow = false;
@@ -382,6 +388,7 @@ pub unsafe fn emulate(uc: &mut ucontext_t) -> bool {
                 _ => (v as u64, v),
             };
             wr(uc, 0, nr);
+            c.port_in = c.port_in.wrapping_add(c.port_in_step);
             done!(o + l, Ev::In(port, width, val))
         }
         0xEE | 0xEF | 0xE6 | 0xE7 => {
@@ -637,7 +644,7 @@ pub unsafe fn emulate(uc: &mut ucontext_t) -> bool {
 /// signal entry (called from sig.rs after the memory environments declined)
 pub unsafe fn on_signal(sig: c_int, info: *mut siginfo_t, uc: &mut ucontext_t) -> bool {
     let c = &mut CPU;
-    if c.mode == Mode::Off {
+    if !c.armed {
         return false;
     }
     if sig == libc::SIGTRAP {
@@ -717,6 +724,21 @@ pub fn run_stepped<R>(f: impl FnOnce() -> R) -> Result<R, ()> {
     r
 }
 
+/// Keep fault-mode emulation switched on (for sweeps that must also catch instructions the optimiser moved out of the call).
+pub fn fault_mode_on() {
+    unsafe {
+        core::ptr::write_volatile(core::ptr::addr_of_mut!(CPU.mode), Mode::Fault);
+        core::arch::asm!("", options(nostack));
+    }
+}
+/// Run `f` with emulation already on (fault_mode_on); only catches panics and fences the event window.
+pub fn run_window<R>(f: impl FnOnce() -> R) -> Result<R, ()> {
+    unsafe { core::arch::asm!("", options(nostack)) };
+    let r = crate::out::catch(f);
+    unsafe { core::arch::asm!("", options(nostack)) };
+    r
+}
+
 /// Run `f` natively; privileged instructions trap and are emulated.
 pub fn run_fault<R>(f: impl FnOnce() -> R) -> Result<R, ()> {
     unsafe {
@@ -737,4 +759,8 @@ pub fn init() {
     // prime std's CPU feature cache before any stepping
     let _ = std::is_x86_feature_detected!("avx2");
     cpu().reset();
+    unsafe {
+        core::ptr::write_volatile(core::ptr::addr_of_mut!(CPU.armed), true);
+        core::arch::asm!("", options(nostack));
+    }
 }
